@@ -28,7 +28,7 @@ def run(ctx):
     F = ctx.facts
     SELF = ('param', 'self')
     SHAPE = ('field', SELF, 'current_shape')
-    builders = [b for b in F.bodies if b.self_base == 'Architecture' and b.kind != 'Closure' and not b.impl_trait and b.arg_count >= 1 and b.local_ty(1).startswith('&mut')]
+    builders = [b for b in F.units() if b.self_base == 'Architecture' and b.kind != 'Closure' and not b.impl_trait and b.arg_count >= 1 and b.local_ty(1).startswith('&mut')]
     pushers = {}
     for b in builders:
         R = Resolver(b)
